@@ -12,6 +12,7 @@ from .. import docmodel as D
 from .. import spaces as S
 from .. import corpus
 from .. import impl
+from .. import modstate
 
 ID = "C12"
 LEVEL_TEXT = ("(purity) every public call on every S1/S4/corpus dictionary with a type-strict deep snapshot of the arguments before/after; "
@@ -25,12 +26,17 @@ ASSUMPTIONS = [
     "a failing schedule is re-run twice and must fail identically before it is reported; divergence while replaying is a harness error (exit 2)",
 ]
 
+def init_worker():
+    modstate.snapshot()      # before anything of the implementation has run in this process
+
+
 # ------------------------------------------------------------------ documents used by histories and schedules
 DOC_A = 'MAP # first map\n  NAME "a" # name comment\n  LAYER # lyr\n    TYPE POINT\n    NAME "l" # lname\n  END\nEND'
 DOC_B = '# header b\nMAP\n  NAME "b" # other\n  WEB # web comment\n    IMAGEPATH "/x"\n  END\nEND'
 DOC_C = 'LAYER NAME "nocomment" TYPE LINE CLASS STYLE COLOR 1 2 3 END END END'
 DOC_BAD = 'MAP NAME "x" LAYER TYPE END END'
 DOC_BAD2 = 'MAP # kept?\n  NAME "x" # c2\n  /* c3 */ FOO\nEND'
+DOC_D = 'MAP\n  NAME "d" # n\n  # dangling comment before the end\nEND # after the end\n# and one more line\n'
 DOC_INVALID = 'MAP NAME "m" DATAPATTERN "x" LAYER NAME "l" ENCODING "u" END END'
 
 
@@ -45,7 +51,7 @@ def units(tier):
     pairs = sched_pairs(tier)
     for pi in range(len(pairs)):
         gran, bound = pairs[pi][2], pairs[pi][3]
-        k = 16 if gran == "line" or bound == 2 else 8
+        k = 16 if gran in ("line", "call-all") or bound == 2 else 8
         us += [("SCHED", pi, s, k) for s in range(k)]
     us += [("HISTFRESH", 2 if tier == "quick" else 3, i) for i in range(len(hist_ops()))]
     us += [("DEBRUIJN", 3 if tier == "quick" else 4)]
@@ -117,7 +123,7 @@ def run_pure(res, docs, public=False):
 # ------------------------------------------------------------------ histories on reused worker objects
 def hist_ops():
     return [
-        ("parse_c", DOC_A), ("parse_c", DOC_B), ("parse_c", DOC_C), ("parse_c", DOC_BAD), ("parse_c", DOC_BAD2),
+        ("parse_c", DOC_A), ("parse_c", DOC_B), ("parse_c", DOC_C), ("parse_c", DOC_BAD), ("parse_c", DOC_BAD2), ("parse_c", DOC_D),
         ("parse_n", DOC_A), ("parse_n", DOC_BAD), ("parse_np", DOC_B),
         ("print", DOC_A), ("print_c", DOC_B), ("print_sc", DOC_C),
         ("validate", DOC_A, None), ("validate", DOC_INVALID, 7.6), ("validate", DOC_INVALID, 8.2),
@@ -167,6 +173,7 @@ _fresh = {}
 
 def fresh(op):
     if op not in _fresh:
+        modstate.restore()
         _fresh[op] = do_op(Workers(), op)
     return _fresh[op]
 
@@ -176,6 +183,7 @@ def run_hist_fresh(res, depth, first):
     for L in range(1, depth + 1):
         for tail in itertools.product(range(len(ops)), repeat=L - 1):
             hist = (first,) + tail
+            modstate.restore()
             w = Workers()
             res["evals"] += 1
             bad = None
@@ -199,7 +207,7 @@ def run_hist_fresh(res, depth, first):
 
 
 def doc_name(op):
-    return {DOC_A: "A", DOC_B: "B", DOC_C: "C", DOC_BAD: "BAD", DOC_BAD2: "BAD2", DOC_INVALID: "INVALID"}.get(op[1], "?") + ("" if len(op) < 3 else "@%s" % op[2])
+    return {DOC_A: "A", DOC_B: "B", DOC_C: "C", DOC_D: "D", DOC_BAD: "BAD", DOC_BAD2: "BAD2", DOC_INVALID: "INVALID"}.get(op[1], "?") + ("" if len(op) < 3 else "@%s" % op[2])
 
 
 def de_bruijn(k, n):
@@ -255,15 +263,20 @@ def api_calls():
     dA = mappyfile.loads(DOC_A)
     dI = mappyfile.loads(DOC_INVALID)
     dL = mappyfile.loads('MAP LAYER NAME "a" GROUP "g" TYPE POINT END LAYER NAME "b" TYPE POINT END END')
+    dS = mappyfile.loads('SYMBOL NAME "s" TYPE ELLIPSE ANCHORPOINT 0.5 0.5 FILLED TRUE TRANSPARENT 5 END')
+    from mappyfile.validator import Validator
     return {
         "loads": lambda: D.typed(mappyfile.loads(DOC_C)),
         "loads_comments_A": lambda: D.typed(mappyfile.loads(DOC_A, include_comments=True)),
         "loads_comments_B": lambda: D.typed(mappyfile.loads(DOC_B, include_comments=True, include_position=True)),
         "loads_failing": lambda: D.typed(mappyfile.loads(DOC_BAD2, include_comments=True)),
+        "loads_comments_D": lambda: D.typed(mappyfile.loads(DOC_D, include_comments=True)),
         "dumps": lambda: mappyfile.dumps(copy.deepcopy(dA), indent=2, end_comment=True),
         "dumps_default": lambda: mappyfile.dumps(copy.deepcopy(dI)),
         "validate_7.6": lambda: [m["message"] for m in mappyfile.validate(copy.deepcopy(dI), 7.6)],
         "validate_8.0": lambda: [m["message"] for m in mappyfile.validate(copy.deepcopy(dI), 8.0)],
+        # a small schema (12 keywords, 4 of them version-annotated): every call event is a scheduling point
+        "validate_symbol_6.0": lambda: [m["message"] for m in Validator().validate(copy.deepcopy(dS), schema_name="symbol", version=6.0)],
         "findall": lambda: [x["name"] for x in mappyfile.findall(dL["layers"], "group", "g")] + [D.typed(dL)],
         "open": lambda: D.typed(mappyfile.open(fn, include_comments=True)),
     }
@@ -286,20 +299,23 @@ def _tmpdir():
 def sched_pairs(tier):
     """(names tuple, label, granularity, bound)"""
     q = [
-        (("loads_comments_A", "loads_comments_B"), "call", 1),
-        (("loads_comments_A", "loads_comments_A"), "call", 1),
+        (("loads_comments_A", "loads_comments_B"), "line", 1),
+        (("loads_comments_A", "loads_comments_D"), "call", 1),
         (("loads_comments_A", "loads_failing"), "call", 1),
         (("validate_7.6", "validate_8.0"), "call", 1),
+        (("validate_7.6", "validate_7.6"), "call", 1),
+        (("validate_symbol_6.0", "validate_symbol_6.0"), "call-all", 1),
         (("dumps", "dumps_default"), "call", 1),
         (("loads", "open"), "call", 1),
     ]
     if tier == "thorough":
-        names = ["loads", "loads_comments_A", "loads_comments_B", "loads_failing", "dumps", "validate_7.6", "validate_8.0", "findall", "open"]
+        names = ["loads", "loads_comments_A", "loads_comments_B", "loads_comments_D", "loads_failing", "dumps", "validate_7.6", "validate_8.0", "findall", "open"]
         q = []
         for a, b in itertools.combinations_with_replacement(names, 2):
             q.append(((a, b), "line", 1))
         q.append((("loads_comments_A", "loads_comments_B"), "call", 2))
         q.append((("validate_7.6", "validate_8.0"), "call", 2))
+        q.append((("validate_symbol_6.0", "validate_symbol_6.0"), "call-all", 2))
         q.append((("loads_comments_A", "loads_comments_B", "open"), "call", 1))
     return [(names, "+".join(names), g, b) for names, g, b in q]
 
@@ -320,7 +336,10 @@ def run_sched(res, pi, shard, nshards, tier):
                 return "thread %s: result under this schedule differs from the sequential result (%s vs %s)" % (n, str(got)[:160], str(want)[:160])
         return None
 
-    sched.MAX_PER_LABEL[0] = 3 if tier == "quick" else 8
+    sched.MAX_PER_LABEL[0] = (2 if gran == "line" else 3) if tier == "quick" else 8
+    if gran == "call-all":
+        gran = "call"
+        sched.MAX_PER_LABEL[0] = None       # small harness: every event is a scheduling point
     out = sched.explore(mk, gran, bound, judge, shard, nshards)
     res["evals"] += out["executions"]
     for k in out["outcomes"]:
@@ -331,7 +350,7 @@ def run_sched(res, pi, shard, nshards, tier):
     for choices, msg, labels in out["violations"][:5]:
         R.add_outcome(res, "schedule_violation")
         R.add_violation(res, "schedule|%s|%s" % (label, gran), msg + " | first switch after %r" % (labels[-2:],),
-                        {"calls": list(names), "granularity": gran, "schedule": choices}, None)
+                        {"calls": list(names), "granularity": gran, "schedule": choices, "max_per_label": sched.MAX_PER_LABEL[0]}, None)
     R.add_sub(res, "schedules %s gran=%s preemptions<=%d (max %d points)" % (label, gran, bound, out["max_points"]), out["executions"])
     if shard == 0:
         R.add_sample(res, {"calls": list(names), "granularity": gran, "bound": bound, "points_in_default_schedule": out["max_points"],
@@ -339,6 +358,7 @@ def run_sched(res, pi, shard, nshards, tier):
 
 
 def sched_result(thunk):
+    modstate.restore()
     try:
         return ("ok", thunk())
     except BaseException as e:
@@ -392,7 +412,7 @@ def describe(tier):
                     "schedules: case = one complete interleaving (list of choices) of the harness; state = distinct observation / outcome",
             "bounds": {"history_operations": len(hist_ops()), "fresh_history_depth": 2 if tier == "quick" else 3, "window_length": 3 if tier == "quick" else 4,
                        "schedule_harnesses": [(l, g, b) for _, l, g, b in sched_pairs(tier)], "threads": "2 (one 3-thread harness in the thorough tier)",
-                       "scheduling_points_per_thread_and_code_location": 3 if tier == "quick" else 8}}
+                       "scheduling_points_per_thread_and_code_location": "3 (call granularity) / 2 (line granularity)" if tier == "quick" else 8}}
 
 
 def replay(case):
@@ -402,6 +422,7 @@ def replay(case):
         calls = api_calls()
         names = case["calls"]
         seq = [sched_result(calls[n]) for n in names]
+        sched.MAX_PER_LABEL[0] = case.get("max_per_label")
         r = sched.run_schedule(lambda: [calls[n] for n in names], case["schedule"], case["granularity"])
         if r["deadlock"]:
             return {"deadlock": True}
